@@ -52,3 +52,57 @@ Proof.
   - intros H1 H2. injection H1 as H1. injection H2 as H2. now rewrite (ext_ltb_trans _ _ _ H1 H2).
   - destruct (ext_total x y) as [H|[H|H]]; [left|right;left|right;right]; now rewrite ?H.
 Qed.
+
+(* ---------- Le: a total preorder whose kernel is numeric equality ---------- *)
+Lemma ext_leb_refl x : ext_leb x x = true.
+Proof. rewrite ext_leb_negb_ltb, ext_ltb_irrefl; reflexivity. Qed.
+
+Lemma ext_leb_trans x y z : ext_leb x y = true -> ext_leb y z = true -> ext_leb x z = true.
+Proof.
+  rewrite !ext_leb_negb_ltb. intros H1 H2.
+  apply Bool.negb_true_iff in H1. apply Bool.negb_true_iff in H2. apply Bool.negb_true_iff.
+  destruct (ext_ltb z x) eqn:Ezx; [exfalso|reflexivity].
+  (* z < x; not (y < x) so x <= y, hence z < y or ... use totality *)
+  destruct (ext_total y x) as [H|[H|H]].
+  - congruence.
+  - (* y == x numerically: z < x gives z < y *)
+    destruct x as [|p|], y as [|q|], z as [|r|]; cbn [ext_ltb ext_eqb] in *; try discriminate.
+    apply Qeq_bool_iff in H.
+    destruct (Qlt_le_dec r p) as [A|A]; [|discriminate].
+    destruct (Qlt_le_dec r q) as [B|B]; [discriminate|].
+    rewrite <- H in A. exact (Qlt_not_le _ _ A B).
+  - (* x < y and z < x give z < y *)
+    rewrite (ext_ltb_trans _ _ _ Ezx H) in H2. discriminate.
+Qed.
+
+Lemma ext_leb_total x y : ext_leb x y = true \/ ext_leb y x = true.
+Proof.
+  rewrite !ext_leb_negb_ltb.
+  destruct (ext_ltb y x) eqn:E; [right|left; reflexivity].
+  now rewrite (ext_ltb_asym _ _ E).
+Qed.
+
+Lemma ext_leb_antisym x y : ext_leb x y = true -> ext_leb y x = true -> ext_eqb x y = true.
+Proof.
+  rewrite !ext_leb_negb_ltb. intros H1 H2.
+  apply Bool.negb_true_iff in H1. apply Bool.negb_true_iff in H2.
+  destruct (ext_total x y) as [H|[H|H]]; congruence.
+Qed.
+
+Theorem Le_total_preorder_exact : forall a b c x y z,
+  xreal a = true -> xreal b = true -> xreal c = true ->
+  val a = Some x -> val b = Some y -> val c = Some z ->
+  rel_le a a = Ok (Some true) /\
+  (rel_le a b = Ok (Some true) -> rel_le b c = Ok (Some true) -> rel_le a c = Ok (Some true)) /\
+  (rel_le a b = Ok (Some true) \/ rel_le b a = Ok (Some true)) /\
+  (rel_le a b = Ok (Some true) -> rel_le b a = Ok (Some true) -> ext_eqb x y = true).
+Proof.
+  intros a b c x y z Ha Hb Hc Hx Hy Hz.
+  rewrite (Le_correct_exact a a x x Ha Ha Hx Hx), (Le_correct_exact a b x y Ha Hb Hx Hy),
+          (Le_correct_exact b a y x Hb Ha Hy Hx), (Le_correct_exact b c y z Hb Hc Hy Hz),
+          (Le_correct_exact a c x z Ha Hc Hx Hz).
+  rewrite ext_leb_refl. split; [reflexivity|]. split; [|split].
+  - intros H1 H2. injection H1 as H1. injection H2 as H2. now rewrite (ext_leb_trans _ _ _ H1 H2).
+  - destruct (ext_leb_total x y) as [H|H]; [left|right]; now rewrite H.
+  - intros H1 H2. injection H1 as H1. injection H2 as H2. exact (ext_leb_antisym _ _ H1 H2).
+Qed.
